@@ -45,7 +45,17 @@ pub fn view(thorough: bool) -> Report {
                 r.fail(sig.clone(), "[frame:view2-zoom-no-cursor] zoom without a cursor position changed the centre".into(), json!({"contract":"view"}));
             }
             if after == before && changed {
-                r.fail(sig, "[flag:view2-zoom] changed == true although the view is bit-identical".into(), json!({"contract":"view"}));
+                r.fail(sig.clone(), "[flag:view2-zoom] changed == true although the view is bit-identical".into(), json!({"contract":"view"}));
+            }
+            if let Some(pw) = pos {
+                let tame = s.is_finite() && s.abs() >= 0.5 && s.abs() <= 3.0 && cx.is_finite() && cy.is_finite() && cx.abs() <= 3.0 && cy.abs() <= 3.0 && am.is_finite() && am >= 0.5 && am <= 2.0;
+                if tame {
+                    let v0 = View2::from_center_and_scale(Vector2::new(cx, cy), s);
+                    let (m0, m1) = (v0.world_to_model().transform_point(&pw), v.world_to_model().transform_point(&pw));
+                    if (m1 - m0).norm() > 1.0e-4 * (1.0 + m0.coords.norm()) {
+                        r.fail(sig, format!("[zoom:view2] the model point under the zoom position moved from ({}, {}) to ({}, {})", m0.x, m0.y, m1.x, m1.y), json!({"contract":"view"}));
+                    }
+                }
             }
         }
     }}}}
@@ -66,7 +76,18 @@ pub fn view(thorough: bool) -> Report {
                 r.fail(sig.clone(), "[frame:view3-zoom] zoom changed yaw or pitch".into(), json!({"contract":"view"}));
             }
             if after == before && changed {
-                r.fail(sig, "[flag:view3-zoom] changed == true although the view is bit-identical".into(), json!({"contract":"view"}));
+                r.fail(sig.clone(), "[flag:view3-zoom] changed == true although the view is bit-identical".into(), json!({"contract":"view"}));
+            }
+            // the zoom clause (approximate): the model point under the zoom position stays where it was (moderate, finite values only)
+            if let Some(pw) = pos {
+                let tame = s.is_finite() && s.abs() >= 0.5 && s.abs() <= 3.0 && cx.is_finite() && cz.is_finite() && cx.abs() <= 3.0 && cz.abs() <= 3.0 && am.is_finite() && am >= 0.5 && am <= 2.0 && yaw.is_finite();
+                if tame {
+                    let v0 = View3::from_components(Vector3::new(cx, 0.25, cz), s, yaw, 0.36);
+                    let (m0, m1) = (v0.world_to_model().transform_point(&pw), v.world_to_model().transform_point(&pw));
+                    if (m1 - m0).norm() > 1.0e-4 * (1.0 + m0.coords.norm()) {
+                        r.fail(sig, format!("[zoom:view3] the model point under the zoom position moved from ({}, {}, {}) to ({}, {}, {})", m0.x, m0.y, m0.z, m1.x, m1.y, m1.z), json!({"contract":"view"}));
+                    }
+                }
             }
         }
     }}}}}
@@ -84,6 +105,10 @@ pub fn view(thorough: bool) -> Report {
         }
         if !pitch_ok(f32::from_bits(after[5])) {
             r.fail(sig.clone(), format!("[range:view3-pitch] pitch {} outside [0, pi]", fmt_f(f32::from_bits(after[5]))), json!({"contract":"view"}));
+        }
+        let yaw_after = f32::from_bits(after[4]);
+        if yaw_after.is_finite() && !(yaw_after.abs() < std::f32::consts::TAU) {
+            r.fail(sig.clone(), format!("[range:view3-yaw] yaw {} outside one turn after a rotate", fmt_f(yaw_after)), json!({"contract":"view"}));
         }
         if after == before && changed {
             r.fail(sig, "[flag:view3-rotate] changed == true although the view is bit-identical".into(), json!({"contract":"view"}));
@@ -178,12 +203,12 @@ pub fn view(thorough: bool) -> Report {
             // ---- pan clause bookkeeping
             let cursor: Option<Point2<i32>> = match ev {
                 Ev::End => { grab2 = None; grab3 = None; None }
-                Ev::Resize(sz) => { size2 = sizes2[sz]; grab2 = None; None }   // a resize moves the world position of a pixel: not part of the clause
+                Ev::Resize(sz) => { size2 = sizes2[sz]; None }   // the handle works in world space: after a resize the next drag step must put the grabbed point under the cursor again
                 Ev::Zoom(sc, p) => { if !(scrolls[sc].abs() <= 50.0) { tame = false; } if p.is_none() { grab2 = None; grab3 = None; } p.map(|i| spos[i]) }
                 Ev::Begin(p, _) | Ev::Drag(p) => Some(spos[p]),
                 Ev::Interact(sz, cs, sc) => {
                     if !(scrolls[sc].abs() <= 50.0) { tame = false; }
-                    if sizes2[sz].width() != size2.width() || sizes2[sz].height() != size2.height() { size2 = sizes2[sz]; grab2 = None; }
+                    size2 = sizes2[sz];
                     match cs { Some((p, d)) if d != 0 => Some(spos[p]), _ => { grab2 = None; grab3 = None; None } }
                 }
             };
@@ -226,6 +251,10 @@ pub fn view(thorough: bool) -> Report {
             }
             if ch3 == Some(true) && after3 == before3 {
                 r.fail(sig.clone(), "[flag:canvas3] changed == true although the 3D view is bit-identical".into(), json!({"contract":"view"}));
+            }
+            let yaw_now = f32::from_bits(after3[4]);
+            if yaw_now.is_finite() && !(yaw_now.abs() < std::f32::consts::TAU) {
+                r.fail(sig.clone(), format!("[range:canvas3-yaw] yaw {} outside one turn", fmt_f(yaw_now)), json!({"contract":"view"}));
             }
             if !pitch_ok(f32::from_bits(after3[5])) {
                 r.fail(sig.clone(), format!("[range:canvas3-pitch] pitch {} outside [0, pi]", fmt_f(f32::from_bits(after3[5]))), json!({"contract":"view"}));
